@@ -76,15 +76,26 @@ def DelOut (c : Ctx) (l : List Nat) (c' : Ctx) : Prop :=
     c' = (((c.moveHighwater (c.seg.get i).next).withSeg sg).setIs (match (c.seg.get i).prev with | some p => some p | none => c.is)).backOnto
       (c.seg.get i).prev
 
-/-- `delete_` -/
-theorem delete_J (c : Ctx) {l : List Nat} (hj : J c l) : OutcomeP (DelOut c l) (opDelete c) := by
+/-- `delete_` that goes on: the cursor's slot `i` leaves the stream and the cursor steps back -/
+def DelCont (c : Ctx) (l : List Nat) (c' : Ctx) : Prop :=
+  ∃ a i b sg, c.is = some i ∧ l = a ++ i :: b ∧ J c' (a ++ b) ∧ (c.seg.get i).prev = a.getLast? ∧ (c.seg.get i).next = b.head? ∧
+    c' = (((c.moveHighwater (c.seg.get i).next).withSeg sg).setIs (match (c.seg.get i).prev with | some p => some p | none => c.is)).backOnto
+      (c.seg.get i).prev
+
+def DelOutcome (c : Ctx) (l : List Nat) : Outcome → Prop
+  | .cont c' => DelCont c l c'
+  | .died c' => c' = (c.setIs c.seg.last).setStatus .died_early ∧ J c' l
+  | .fault _ => True
+
+/-- `delete_`, outcome by outcome -/
+theorem delete_J2 (c : Ctx) {l : List Nat} (hj : J c l) : DelOutcome c l (opDelete c) := by
   unfold opDelete
   split
-  · exact .inl ⟨rfl, die_J c hj⟩
+  · exact ⟨rfl, die_J c hj⟩
   · rename_i i heq
     simp only []
     split
-    · exact .inl ⟨rfl, die_J c hj⟩
+    · exact ⟨rfl, die_J c hj⟩
     · rename_i hdel
       have hil : i ∈ l := by
         have hio := hj.isok
@@ -121,7 +132,7 @@ theorem delete_J (c : Ctx) {l : List Nat} (hj : J c l) : OutcomeP (DelOut c l) (
         rcases List.mem_append.mp hx with hx | hx
         · exact List.mem_append_left _ hx
         · exact List.mem_append_right _ (List.mem_cons_of_mem _ hx)
-      refine .inr ⟨a, i, b, _, heq, rfl, ⟨?_, ?_, ?_, ?_, ?_⟩, hmid.1, hmid.2.1, rfl⟩
+      refine ⟨a, i, b, _, heq, rfl, ⟨?_, ?_, ?_, ?_, ?_⟩, hmid.1, hmid.2.1, rfl⟩
       · simp only [backOnto_seg, setIs_seg, withSeg_seg, moveHighwater_seg]
         exact (l1.same ssd).addGlyphs _
       · simp only [backOnto_seg, setIs_seg, withSeg_seg, moveHighwater_seg]
@@ -193,6 +204,14 @@ theorem delete_J (c : Ctx) {l : List Nat} (hj : J c l) : OutcomeP (DelOut c l) (
           · exact absurd hx hji
           · exact List.mem_append_right _ hx
 
+/-- `delete_` -/
+theorem delete_J (c : Ctx) {l : List Nat} (hj : J c l) : OutcomeP (DelOut c l) (opDelete c) := by
+  have h := delete_J2 c hj
+  cases ho : opDelete c with
+  | cont c' => rw [ho] at h; exact .inr h
+  | died c' => rw [ho] at h; exact .inl h
+  | fault w => trivial
+
 theorem delete_PS (c : Ctx) (h : PS c) : OutcomeP PS (opDelete c) := by
   obtain ⟨l, hj⟩ := h
   refine (delete_J c hj).mono (fun c' h => ?_)
@@ -203,16 +222,17 @@ theorem delete_PS (c : Ctx) (h : PS c) : OutcomeP PS (opDelete c) := by
 /-- where `insert` puts the new slot: in front of the current slot, of the first slot when the current one is the
 deleted former first slot, or at the end -/
 theorem skip_split {s : Seg} {l : List Nat} {is : Option Nat} (hc : Clean s l) (hi : IsOK s l is) (fuel : Nat) :
-    ∃ a b, l = a ++ b ∧ skipDeleted s (fuel + 2) is = b.head? ∧ (∀ x, is = some x → x ∈ l → b.head? = some x) ∧ (is = none → b = []) := by
+    ∃ a b, l = a ++ b ∧ skipDeleted s (fuel + 2) is = b.head? ∧ (∀ x, is = some x → x ∈ l → b.head? = some x) ∧ (is = none → b = []) ∧
+      (∀ x, is = some x → x ∉ l → a = []) := by
   rcases hi with h0 | ⟨i, h1, h2⟩ | ⟨d, h1, h2, h3, h4, h5, h6⟩
   · subst h0
-    exact ⟨l, [], by simp, by simp [skipDeleted], fun x hx => (by cases hx), fun _ => rfl⟩
+    exact ⟨l, [], by simp, by simp [skipDeleted], fun x hx => (by cases hx), fun _ => rfl, fun x hx => (by cases hx)⟩
   · subst h1
     obtain ⟨a, b, rfl⟩ := List.append_of_mem h2
-    refine ⟨a, i :: b, rfl, ?_, fun x hx _ => (by cases hx; rfl), fun hh => (by cases hh)⟩
+    refine ⟨a, i :: b, rfl, ?_, fun x hx _ => (by cases hx; rfl), fun hh => (by cases hh), fun x hx hn => (by cases hx; exact absurd h2 hn)⟩
     simp [skipDeleted, (hc.live i h2).1]
   · subst h1
-    refine ⟨[], l, by simp, ?_, fun x hx hxl => (by cases hx; exact absurd hxl h2), fun hh => (by cases hh)⟩
+    refine ⟨[], l, by simp, ?_, fun x hx hxl => (by cases hx; exact absurd hxl h2), fun hh => (by cases hh), fun _ _ _ => rfl⟩
     simp only [skipDeleted, h3, if_true, h4]
     cases hq : l.head? with
     | none => rfl
@@ -226,22 +246,34 @@ def InsOut (c : Ctx) (l : List Nat) (c' : Ctx) : Prop :=
   (c' = (((c.setMaxSize (c.maxSize - 1)).setIs c.seg.last).setStatus .died_early) ∧ J c' l) ∨
   ∃ a b n sg mp, l = a ++ b ∧ n ∉ l ∧ J c' (a ++ n :: b) ∧ (∀ x, c.is = some x → x ∈ l → b.head? = some x) ∧ (c.is = none → b = []) ∧
     ¬ (c.maxSize - 1 ≤ 0) ∧
-    c' = ((((c.setMaxSize (c.maxSize - 1)).markHighpassed false).withSeg sg).setIs (some n)).setMap mp
+    c' = ((((c.setMaxSize (c.maxSize - 1)).markHighpassed false).withSeg sg).setIs (some n)).setMap mp ∧
+    (∀ x, c.is = some x → x ∉ l → a = [])
 
-theorem insert_J (c : Ctx) {l : List Nat} (hj : J c l) : OutcomeP (InsOut c l) (opInsert c) := by
+def InsCont (c : Ctx) (l : List Nat) (c' : Ctx) : Prop :=
+  ∃ a b n sg mp, l = a ++ b ∧ n ∉ l ∧ J c' (a ++ n :: b) ∧ (∀ x, c.is = some x → x ∈ l → b.head? = some x) ∧ (c.is = none → b = []) ∧
+    ¬ (c.maxSize - 1 ≤ 0) ∧
+    c' = ((((c.setMaxSize (c.maxSize - 1)).markHighpassed false).withSeg sg).setIs (some n)).setMap mp ∧
+    (∀ x, c.is = some x → x ∉ l → a = [])
+
+def InsOutcome (c : Ctx) (l : List Nat) : Outcome → Prop
+  | .cont c' => InsCont c l c'
+  | .died c' => c' = (((c.setMaxSize (c.maxSize - 1)).setIs c.seg.last).setStatus .died_early) ∧ J c' l
+  | .fault _ => True
+
+theorem insert_J2 (c : Ctx) {l : List Nat} (hj : J c l) : InsOutcome c l (opInsert c) := by
   unfold opInsert
   simp only []
   have h' : J (c.setMaxSize (c.maxSize - 1)) l := ⟨hj.linked, hj.clean, hj.isok, hj.hw, hj.alloc⟩
   split
-  · exact .inl ⟨rfl, die_J _ h'⟩
+  · exact ⟨rfl, die_J _ h'⟩
   · rename_i hbud
     split
-    · exact .inl ⟨rfl, die_J _ h'⟩
+    · exact ⟨rfl, die_J _ h'⟩
     · rename_i k seg heq
       simp only [setMaxSize_seg] at heq
       obtain ⟨l1, i1, hkl, hks, hkf, hkp, hkd, hkc, c1⟩ := newSlot_spec hj.linked hj.clean hj.isok heq
       simp only [setMaxSize_is]
-      obtain ⟨a, b, hab, hsk, hsx, hsn⟩ := skip_split c1 i1 (seg.slots.size - 1)
+      obtain ⟨a, b, hab, hsk, hsx, hsn, hsd⟩ := skip_split c1 i1 (seg.slots.size - 1)
       have hfuel : seg.slots.size - 1 + 2 = seg.slots.size + 1 := by omega
       rw [hfuel] at hsk
       rw [hsk]
@@ -251,7 +283,7 @@ theorem insert_J (c : Ctx) {l : List Nat} (hj : J c l) : OutcomeP (InsOut c l) (
         rcases List.mem_append.mp hx with hx | hx
         · exact List.mem_append_left _ hx
         · exact List.mem_append_right _ (List.mem_cons_of_mem _ hx)
-      refine .inr ⟨a, b, k, _, _, rfl, hkl, ⟨?_, ?_, ?_, ?_, ?_⟩, hsx, hsn, hbud, rfl⟩
+      refine ⟨a, b, k, _, _, rfl, hkl, ⟨?_, ?_, ?_, ?_, ?_⟩, hsx, hsn, hbud, rfl, hsd⟩
       · simp only [setMap_seg, setIs_seg, withSeg_seg]
         exact l2.addGlyphs _
       · simp only [setMap_seg, setIs_seg, withSeg_seg]
@@ -297,6 +329,13 @@ theorem insert_J (c : Ctx) {l : List Nat} (hj : J c l) : OutcomeP (InsOut c l) (
         rcases newSlot_alloc hj.alloc heq j h1 h2 h3 h4 with hx | hx
         · exact hsub j hx
         · rw [hx]; simp
+
+theorem insert_J (c : Ctx) {l : List Nat} (hj : J c l) : OutcomeP (InsOut c l) (opInsert c) := by
+  have h := insert_J2 c hj
+  cases ho : opInsert c with
+  | cont c' => rw [ho] at h; exact .inr h
+  | died c' => rw [ho] at h; exact .inl h
+  | fault w => trivial
 
 theorem insert_PS (c : Ctx) (h : PS c) : OutcomeP PS (opInsert c) := by
   obtain ⟨l, hj⟩ := h
